@@ -28,7 +28,8 @@ class TextFile(File):
         else:
             stream = self.fs.load()
             stream = self.codec.decompress(stream)
-            stream = TextIOWrapper(stream, encoding, encoding_errors)
+            # newline='': keep line endings as they are in the file
+            stream = TextIOWrapper(stream, encoding, encoding_errors, newline='')
         return stream
 
     def dump(self, stream=None, encoding='utf8', encoding_errors='ignore'):  # pylint: disable=arguments-differ
